@@ -1,6 +1,7 @@
 package engine
 
 import (
+	"google.golang.org/protobuf/types/known/anypb"
 	"google.golang.org/protobuf/types/dynamicpb"
 	"context"
 	"encoding/binary"
@@ -269,6 +270,7 @@ type HandlerSpec struct {
 	Msg      string    `json:"msg"`       //
 	FailCode int       `json:"fail_code"` // final status when a stream call failed
 	Details  bool      `json:"details,omitempty"` // attach status details to a non-OK final status
+	DetailForeign bool `json:"detail_foreign,omitempty"` // ... and among them one of a message type that only the backend knows (round 14)
 	// PassErr: when a stream call failed the handler returns that call's error
 	// as it got it ("return err"), instead of a status of its own.
 	PassErr bool `json:"pass_err,omitempty"`
@@ -488,6 +490,12 @@ func (w *World) enter(ctx context.Context, rs *reqState) *HLog {
 	return l
 }
 
+// foreignDetail: a status detail whose message type no registry in the gateway
+// resolves (the backend's own error type); it has to reach the client as it is.
+func foreignDetail() *anypb.Any {
+	return &anypb.Any{TypeUrl: "type.googleapis.com/sim.backend.OnlyThere", Value: []byte{0x0a, 0x03, 'a', 'b', 'c', 0x10, 0x07}}
+}
+
 func finalStatus(spec *HandlerSpec, failed bool) error {
 	code, msg := codes.Code(spec.Code), spec.Msg
 	if failed {
@@ -499,6 +507,11 @@ func finalStatus(spec *HandlerSpec, failed bool) error {
 	if spec.Details && !failed {
 		st, err := status.New(code, msg).WithDetails(&grpc_testing.Payload{Body: []byte("detail-" + msg)}, &grpc_testing.EchoStatus{Code: int32(code), Message: "second"})
 		if err == nil {
+			if spec.DetailForeign {
+				p := st.Proto()
+				p.Details = append(p.Details, foreignDetail())
+				return status.ErrorProto(p)
+			}
 			return st.Err()
 		}
 	}
